@@ -50,6 +50,10 @@ type Scn struct {
 	// reset first, then the private modes to set in one CSI ? a;b;c h
 	Form   int     `json:"form,omitempty"`
 	Inputs []Input `json:"inputs"`
+	// Alt: the child is on the alternate screen (?1049h); M1007: alternate-scroll mode as set AFTER that
+	// (entering the alternate screen may switch it on by itself)
+	Alt   bool `json:"alt,omitempty"`
+	M1007 bool `json:"m1007,omitempty"`
 }
 
 type Ctx struct {
@@ -349,6 +353,10 @@ func Run(ctx *Ctx, sc *Scn) (evs []trace.Ev, note string) {
 		}
 	}
 	set(sc.Deckpam, "\x1b=", "\x1b>")
+	if sc.Alt {
+		set(true, "\x1b[?1049h", "")
+		set(sc.M1007, "\x1b[?1007h", "\x1b[?1007l")
+	}
 	buf := make([]byte, 4096)
 	written := func() []byte {
 		// everything Update wrote, delimited by a marker no encoding contains
@@ -420,6 +428,7 @@ func Run(ctx *Ctx, sc *Scn) (evs []trace.Ev, note string) {
 			vt.Update(k)
 			b := written()
 			n, rt, rtNoAlt, gots := 0, false, false, ""
+			ctrlm := []int{} // ASCII keys c such that the decoded event matches Ctrl+c (for Ctrl chords whose control code several keys share)
 			if len(b) > 0 {
 				got, dead := h.decode(b)
 				if dead != "" {
@@ -431,6 +440,13 @@ func Run(ctx *Ctx, sc *Scn) (evs []trace.Ev, note string) {
 					if gk, ok := got[0].(vaxis.Key); ok {
 						rt = gk.Matches(k.Keycode, k.Modifiers)
 						rtNoAlt = gk.Matches(k.Keycode, k.Modifiers&^vaxis.ModAlt)
+						if in.Mods == 4 && in.Name == "" {
+							for c := rune(32); c < 127; c++ {
+								if gk.Matches(c, vaxis.ModCtrl) {
+									ctrlm = append(ctrlm, int(c))
+								}
+							}
+						}
 					} else {
 						n = -1
 					}
@@ -443,7 +459,7 @@ func Run(ctx *Ctx, sc *Scn) (evs []trace.Ev, note string) {
 			}
 			evs = append(evs, trace.Ev{"ev": "key", "i": i, "what": what, "modes": modes, "name": in.Name, "code": in.Code, "mods": in.Mods,
 				"lower": in.Name == "" && unicode.ToUpper(rune(in.Code)) != rune(in.Code), "ascii": in.Name == "" && in.Code < 128,
-				"decckm": sc.Decckm, "deckpam": sc.Deckpam, "bytes": ints(b), "n": n, "rt": rt, "rtnoalt": rtNoAlt, "got": gots})
+				"decckm": sc.Decckm, "deckpam": sc.Deckpam, "bytes": ints(b), "n": n, "rt": rt, "rtnoalt": rtNoAlt, "ctrlm": ctrlm, "got": gots})
 		case "paste":
 			if in.Start {
 				vt.Update(vaxis.PasteStartEvent{})
@@ -475,7 +491,8 @@ func Run(ctx *Ctx, sc *Scn) (evs []trace.Ev, note string) {
 			evs = append(evs, trace.Ev{"ev": "mouse", "i": i,
 				"what":   fmt.Sprintf("mouse:%s:button=%d:modes=%d%d%d%d", in.MType, in.Button, b2i(sc.M1000), b2i(sc.M1002), b2i(sc.M1003), b2i(sc.M1006)),
 				"button": in.Button, "type": in.MType, "col": in.Col, "row": in.Row, "mods": in.Mods,
-				"m1000": sc.M1000, "m1002": sc.M1002, "m1003": sc.M1003, "m1006": sc.M1006, "bytes": ints(b), "sgr": sgr, "dec": dec})
+				"m1000": sc.M1000, "m1002": sc.M1002, "m1003": sc.M1003, "m1006": sc.M1006, "alt": sc.Alt, "m1007": sc.M1007,
+				"decckm": sc.Decckm, "bytes": ints(b), "sgr": sgr, "dec": dec})
 		}
 	}
 	return evs, ""
@@ -576,6 +593,23 @@ func Generate(seed int64, thorough bool) []*Scn {
 	}
 	for p := 0; p < 6; p++ {
 		out = append(out, &Scn{Kind: "paste", Paste: p%2 == 1, Form: p / 2, Inputs: []Input{{T: "paste", Start: true}, {T: "key", Code: 'a'}, {T: "paste"}, {T: "paste"}, {T: "paste", Start: true}}})
+	}
+	// the alternate screen with and without alternate-scroll (1007), with no tracking mode and with each one:
+	// wheel steps become cursor keys only when nothing reports the mouse
+	for _, m1007 := range []bool{false, true} {
+		for mm := 0; mm < 5; mm++ {
+			var ins []Input
+			for _, btn := range []int{0, 1, 2, 3, 64, 65, 66, 67, 128, 129, 130, 131} {
+				for _, ty := range []string{"press", "release", "motion"} {
+					if (btn == 3 && ty != "motion") || (btn >= 64 && btn < 128 && ty != "press") {
+						continue
+					}
+					ins = append(ins, Input{T: "mouse", Button: btn, MType: ty, Col: rng.Intn(80), Row: rng.Intn(24), Mods: rng.Intn(2) * rng.Intn(8)})
+				}
+			}
+			out = append(out, &Scn{Kind: "alt-scroll", Alt: true, M1007: m1007, Decckm: rng.Intn(2) == 0,
+				M1000: mm == 1, M1002: mm == 2, M1003: mm == 3, M1006: mm == 4 || rng.Intn(2) == 0, Inputs: ins})
+		}
 	}
 	// histories: the child changes its modes between inputs
 	nh := 12
